@@ -355,7 +355,7 @@ func genC05CaseFor(t *rapid.T, rule string) (c *ScalarCase, class string) {
 	}
 	c.Rules = []string{item}
 	if c.T.K != "bool" && rapid.IntRange(0, 2).Draw(t, "neighbours") > 0 {
-		c.Rules = []string{"required", item, "noeq=77777|nb"}
+		c.Rules = []string{rapid.SampledFrom([]string{"required", "required", `required|'need, really\'`}).Draw(t, "firstNeighbour"), item, "noeq=77777|nb"}
 		if c.T.K == "array" {
 			c.Rules = []string{"required", item}
 		}
